@@ -1,7 +1,795 @@
-//! C11 — not built yet.
-use crate::report::Tier;
+//! C11 — query results obey the algebra of predicates, limits and aggregates.
+//! Metamorphic relations between the engine's own answers (no reference evaluator decides):
+//!   partition   rows(Q) == rows(Q WHERE p) + rows(Q WHERE NOT p) + rows(Q WHERE (p) IS NULL)
+//!   count       count == number of rows of the query without the aggregate
+//!   distinct    DISTINCT(Q) == set(rows(Q))
+//!   window      ORDER BY uid SKIP s LIMIT n == rows[s..s+n] of the ordered result
+//!   order_perm  ORDER BY only permutes the rows, and sorts them
+//!   weak_window SKIP/LIMIT without ORDER BY: right size, rows taken from the full result
+//!   union_all   Q1 UNION ALL Q2 == rows(Q1) ++ rows(Q2)
+//! in every language that can express the relation. A failing relation is first *attributed*:
+//! if every component answer is exactly what the open findings' deviation rules of the C08
+//! reference model predict, and the relation also fails on the predicted answers, the failure
+//! is a KNOWN-FINDING of the responsible rule(s). Anything else is shrunk and signed
+//! (relation | language | kind | canonical skeleton).
 
-pub fn run(_tier: Tier, _seed: u64) -> ! {
-    println!("INCONCLUSIVE property=C11 reason=monitor not built yet");
-    std::process::exit(2)
+use crate::c08::ast::*;
+use crate::c08::eval::{self, Rule, Rules, Row, eval_rows, rowkey};
+use crate::c08::graph::{self, GraphSpec, build};
+use crate::c08::render::{self, Lang, Rendered, render};
+use crate::c08::{self, BIND_CAP, CaseOut, Verdict, merge, run_parallel, shrink, threads};
+use crate::report::{Report, Tier};
+use crate::rng::{Rng, hash_str};
+use grafeo_common::types::Value;
+use serde_json::json;
+use std::collections::BTreeMap;
+
+#[derive(Clone, Copy, Debug, PartialEq, Eq, Hash)]
+pub enum Rel {
+    Partition,
+    Count,
+    CountStar,
+    Distinct,
+    DistinctWith,
+    Window,
+    OrderPerm,
+    WeakWindow,
+    UnionAll,
+}
+
+impl Rel {
+    fn name(self) -> &'static str {
+        match self {
+            Rel::Partition => "partition",
+            Rel::Count => "count",
+            Rel::CountStar => "count_star",
+            Rel::Distinct => "distinct",
+            Rel::DistinctWith => "distinct_with",
+            Rel::Window => "window",
+            Rel::OrderPerm => "order_perm",
+            Rel::WeakWindow => "weak_window",
+            Rel::UnionAll => "union_all",
+        }
+    }
+}
+
+/// one component query of a relation instance
+#[derive(Clone)]
+struct Comp {
+    /// what is asked (rendered unless `text` overrides; also the model for attribution)
+    q: Query,
+    text: Option<String>,
+    /// rules that do not apply to this component's text (e.g. WITH DISTINCT is not RETURN DISTINCT)
+    rules_off: Vec<Rule>,
+}
+
+fn plain(q: &Query) -> Option<(&Vec<Proj>, bool)> {
+    match &q.ret {
+        Ret::Plain { items, distinct } => Some((items, *distinct)),
+        _ => None,
+    }
+}
+
+/// complement of a simple atom (Gremlin / GraphQL have no NOT)
+fn complement(p: &Pred, graphql: bool) -> Option<Pred> {
+    match p {
+        Pred::Cmp(op, a, b) => {
+            let o = match op {
+                CmpOp::Eq => CmpOp::Ne,
+                CmpOp::Ne => CmpOp::Eq,
+                CmpOp::Lt => CmpOp::Ge,
+                CmpOp::Le => CmpOp::Gt,
+                CmpOp::Gt => CmpOp::Le,
+                CmpOp::Ge => CmpOp::Lt,
+            };
+            Some(Pred::Cmp(o, a.clone(), b.clone()))
+        }
+        Pred::In(..) if !graphql => Some(Pred::Not(Box::new(p.clone()), false)),
+        Pred::IsNull(t, n) if !graphql => Some(Pred::IsNull(t.clone(), !*n)),
+        _ => None,
+    }
+}
+
+/// Components of a relation instance, derived from its carrier query. None = the carrier does
+/// not have the shape the relation needs (possible while shrinking) or the language cannot
+/// express the relation.
+fn components(rel: Rel, c: &Query, lang: Lang) -> Option<Vec<Comp>> {
+    let mk = |q: Query| Comp { q, text: None, rules_off: vec![] };
+    let (items, distinct) = plain(c)?;
+    match rel {
+        Rel::Partition => {
+            let p = c.pred.clone()?;
+            if distinct || !c.order.is_empty() || c.skip.is_some() || c.limit.is_some() {
+                return None;
+            }
+            let mut all = c.clone();
+            all.pred = None;
+            all.fix_names();
+            let with = |p: Pred| {
+                let mut x = c.clone();
+                x.pred = Some(p);
+                x
+            };
+            match lang {
+                Lang::Cypher => Some(vec![mk(all), mk(c.clone()), mk(with(Pred::Not(Box::new(p.clone()), false))), mk(with(Pred::PredIsNull(Box::new(p))))]),
+                Lang::Gql => Some(vec![mk(all), mk(c.clone()), mk(with(Pred::Not(Box::new(p), false)))]),
+                Lang::Gremlin | Lang::GraphQL => {
+                    let neg = complement(&p, lang == Lang::GraphQL)?;
+                    let mut v = vec![mk(all), mk(c.clone()), mk(with(neg))];
+                    // third part: the property is missing (only when every stored value of the key
+                    // is comparable with the constant: homogeneous keys)
+                    if lang == Lang::Gremlin {
+                        if let Pred::Cmp(_, Term::Prop(var, k), Term::Const(cst)) = &p {
+                            if (k == "uid" || k == "f") && matches!(cst, Value::Int64(_) | Value::Float64(_)) {
+                                v.push(mk(with(Pred::IsNull(Term::Prop(*var, k.clone()), false))));
+                            }
+                        }
+                    }
+                    Some(v)
+                }
+            }
+        }
+        Rel::Count | Rel::CountStar => {
+            if distinct || !c.order.is_empty() || c.skip.is_some() || c.limit.is_some() || lang == Lang::GraphQL {
+                return None;
+            }
+            let mut agg = c.clone();
+            let arg = if rel == Rel::CountStar { AggArg::Star } else { AggArg::Var(Var::N(c.nodes.len() - 1)) };
+            agg.ret = Ret::Agg { keys: vec![], aggs: vec![Agg { f: AggFn::Count, arg, distinct: false }] };
+            agg.fix_names();
+            Some(vec![mk(c.clone()), mk(agg)])
+        }
+        Rel::Distinct | Rel::DistinctWith => {
+            if !distinct || !c.order.is_empty() || c.skip.is_some() || c.limit.is_some() || lang == Lang::GraphQL {
+                return None;
+            }
+            let mut all = c.clone();
+            all.ret = Ret::Plain { items: items.clone(), distinct: false };
+            let mut d = mk(c.clone());
+            if rel == Rel::DistinctWith {
+                if !matches!(lang, Lang::Gql | Lang::Cypher) {
+                    return None;
+                }
+                let mut t = format!("MATCH {}", render::pattern_text(c));
+                if let Some(p) = &c.pred {
+                    t.push_str(&format!(" WHERE {}", render::pred_text(p)));
+                }
+                let n = items.len();
+                t.push_str(&format!(
+                    " WITH DISTINCT {} RETURN {}",
+                    items.iter().enumerate().map(|(i, p)| format!("{} AS c{i}", render::proj_text(p))).collect::<Vec<_>>().join(", "),
+                    (0..n).map(|i| format!("c{i}")).collect::<Vec<_>>().join(", ")
+                ));
+                d.text = Some(t);
+                d.rules_off = vec![Rule::DistinctIgnored];
+            }
+            Some(vec![mk(all), d])
+        }
+        Rel::Window | Rel::OrderPerm | Rel::WeakWindow => {
+            if distinct {
+                return None;
+            }
+            let ordered = !c.order.is_empty();
+            let windowed = c.skip.is_some() || c.limit.is_some();
+            match rel {
+                Rel::Window if !(ordered && windowed) => return None,
+                Rel::OrderPerm if !ordered || windowed => return None,
+                Rel::WeakWindow if ordered || !windowed => return None,
+                _ => {}
+            }
+            let mut base = c.clone();
+            if rel == Rel::OrderPerm {
+                base.order.clear();
+            } else {
+                base.skip = None;
+                base.limit = None;
+            }
+            Some(vec![mk(base), mk(c.clone())])
+        }
+        Rel::UnionAll => {
+            if lang != Lang::Gql || distinct || !c.order.is_empty() || c.skip.is_some() || c.limit.is_some() || items.len() != 1 {
+                return None;
+            }
+            let q2 = Query {
+                nodes: vec![NodePat { labels: vec![] }],
+                edges: vec![],
+                pred: None,
+                ret: Ret::Plain { items: vec![Proj::Prop(Var::N(0), "uid".into())], distinct: false },
+                order: vec![],
+                skip: None,
+                limit: None,
+                order_in_with: false,
+            };
+            let t1 = render(c, lang)?.text;
+            let t2 = render(&q2, lang)?.text;
+            let mut u = mk(c.clone());
+            u.text = Some(format!("{t1} UNION ALL {t2}"));
+            Some(vec![mk(c.clone()), mk(q2), u])
+        }
+    }
+}
+
+fn multiset(rows: &[Row]) -> BTreeMap<String, i64> {
+    let mut m = BTreeMap::new();
+    for r in rows {
+        *m.entry(rowkey(r, &[])).or_insert(0) += 1;
+    }
+    m
+}
+
+fn sub_multiset(a: &BTreeMap<String, i64>, b: &BTreeMap<String, i64>) -> bool {
+    a.iter().all(|(k, n)| b.get(k).copied().unwrap_or(0) >= *n)
+}
+
+/// Does the relation hold on these answers (one per component)? None = holds.
+fn check(rel: Rel, c: &Query, outs: &[Vec<Row>]) -> Option<(&'static str, String)> {
+    match rel {
+        Rel::Partition => {
+            let all = multiset(&outs[0]);
+            let mut parts: BTreeMap<String, i64> = BTreeMap::new();
+            for o in &outs[1..] {
+                for (k, n) in multiset(o) {
+                    *parts.entry(k).or_insert(0) += n;
+                }
+            }
+            let sizes: Vec<usize> = outs.iter().map(Vec::len).collect();
+            if outs.len() == 4 {
+                // exact three-way split
+                if parts != all {
+                    let kind = if !sub_multiset(&parts, &all) { "extra_rows" } else { "lost_rows" };
+                    return Some((kind, format!("|Q|, |p|, |NOT p|, |p IS NULL| = {sizes:?}")));
+                }
+            } else if !sub_multiset(&parts, &all) {
+                return Some(("extra_rows", format!("|Q|, |p|, |NOT p| = {sizes:?}: a row is in a part more often than in Q")));
+            }
+            None
+        }
+        Rel::Count | Rel::CountStar => {
+            let n = outs[0].len() as i64;
+            if outs[1].len() != 1 || outs[1][0].len() != 1 || outs[1][0][0] != Value::Int64(n) {
+                return Some(("wrong_value", format!("{n} rows, count says {:?}", outs[1])));
+            }
+            None
+        }
+        Rel::Distinct | Rel::DistinctWith => {
+            let all = multiset(&outs[0]);
+            let d = multiset(&outs[1]);
+            let dup = d.values().any(|n| *n > 1);
+            let same_set = all.keys().eq(d.keys());
+            if dup {
+                return Some(("extra_rows", format!("{} rows, {} distinct, DISTINCT returned {} with repeats", outs[0].len(), all.len(), outs[1].len())));
+            }
+            if !same_set {
+                return Some((if d.len() < all.len() { "missing_rows" } else { "wrong_value" }, format!("{} distinct rows expected, {} returned", all.len(), d.len())));
+            }
+            None
+        }
+        Rel::Window => {
+            let s = c.skip.unwrap_or(0) as usize;
+            let n = c.limit.map(|l| l as usize).unwrap_or(usize::MAX);
+            let exp: Vec<String> = outs[0].iter().skip(s).take(n).map(|r| rowkey(r, &[])).collect();
+            let got: Vec<String> = outs[1].iter().map(|r| rowkey(r, &[])).collect();
+            if exp != got {
+                let kind = if got.len() < exp.len() {
+                    "missing_rows"
+                } else if got.len() > exp.len() {
+                    "extra_rows"
+                } else {
+                    "wrong_rows"
+                };
+                return Some((kind, format!("ordered result has {} rows; rows[{s}..{s}+{n}] has {}, the window query returned {}", outs[0].len(), exp.len(), got.len())));
+            }
+            None
+        }
+        Rel::OrderPerm => {
+            if multiset(&outs[0]) != multiset(&outs[1]) {
+                return Some(("wrong_rows", format!("{} rows unordered, {} rows ordered, not the same multiset", outs[0].len(), outs[1].len())));
+            }
+            for w in outs[1].windows(2) {
+                for o in &c.order {
+                    let cmp = eval::sort_cmp(&w[0][o.col], &w[1][o.col]).map(|x| if o.desc { x.reverse() } else { x });
+                    match cmp {
+                        Some(std::cmp::Ordering::Less) => break,
+                        Some(std::cmp::Ordering::Greater) => return Some(("wrong_order", format!("{:?} before {:?}", w[0], w[1]))),
+                        _ => {}
+                    }
+                }
+            }
+            None
+        }
+        Rel::WeakWindow => {
+            let s = c.skip.unwrap_or(0) as usize;
+            let n = outs[0].len().saturating_sub(s).min(c.limit.map(|l| l as usize).unwrap_or(usize::MAX));
+            if outs[1].len() != n {
+                return Some((if outs[1].len() < n { "missing_rows" } else { "extra_rows" }, format!("{} rows, skip {:?} limit {:?} must give {n}, got {}", outs[0].len(), c.skip, c.limit, outs[1].len())));
+            }
+            if !sub_multiset(&multiset(&outs[1]), &multiset(&outs[0])) {
+                return Some(("wrong_rows", "the window contains rows that are not in the full result".into()));
+            }
+            None
+        }
+        Rel::UnionAll => {
+            let mut cat = multiset(&outs[0]);
+            for (k, n) in multiset(&outs[1]) {
+                *cat.entry(k).or_insert(0) += n;
+            }
+            if multiset(&outs[2]) != cat {
+                let kind = if multiset(&outs[2]) == multiset(&outs[0]) && !outs[1].is_empty() { "second_branch_ignored" } else { "wrong_rows" };
+                return Some((kind, format!("|Q1| = {}, |Q2| = {}, |Q1 UNION ALL Q2| = {}", outs[0].len(), outs[1].len(), outs[2].len())));
+            }
+            None
+        }
+    }
+}
+
+/// what the deviation rules `s` predict for one component (rows in result order where the
+/// component is ordered); None = not predictable
+fn predict(b: &graph::Built, comp: &Comp, lang: Lang, s: &Rules, observed: &[Row]) -> Option<Vec<Row>> {
+    let mut s = s.clone();
+    for r in &comp.rules_off {
+        s = s.without(*r);
+    }
+    let q = &comp.q;
+    let windowed = q.skip.is_some() || q.limit.is_some();
+    if !eval::expected_errors(q, lang, &s).is_empty() {
+        return None;
+    }
+    let mut rows = eval_rows(&b.model, q, lang, &s, BIND_CAP).ok()?;
+    let cmp_rows = |x: &Row, y: &Row| {
+        for o in &q.order {
+            // total order: kinds first (nulls last), then value
+            let (cx, cy) = (eval::class(&x[o.col]), eval::class(&y[o.col]));
+            let rank = |c: u8| if c == 0 { 9 } else { c };
+            let c = rank(cx).cmp(&rank(cy)).then_with(|| eval::sort_cmp(&x[o.col], &y[o.col]).unwrap_or_else(|| eval::vkey(&x[o.col], false).cmp(&eval::vkey(&y[o.col], false))));
+            let c = if o.desc { c.reverse() } else { c };
+            if c != std::cmp::Ordering::Equal {
+                return c;
+            }
+        }
+        std::cmp::Ordering::Equal
+    };
+    let sk = q.skip.unwrap_or(0) as usize;
+    let lim = q.limit.map(|l| l as usize).unwrap_or(usize::MAX);
+    let size = rows.len().saturating_sub(sk).min(lim);
+    // which rows are cut is the engine's choice when the window comes before any order (no
+    // ORDER BY, or rule GqlWindowFirst): its answer is the prediction if it is a possible one
+    let engine_picks = windowed && (q.order.is_empty() || (lang == Lang::Gql && s.on(Rule::GqlWindowFirst)));
+    if engine_picks && observed.len() == size && sub_multiset(&multiset(observed), &multiset(&rows)) {
+        return Some(observed.to_vec());
+    }
+    // an edge column re-typed under way (rule EdgeColTypeLost) is sorted on its true values when
+    // nothing rebuilt the chunk before the sort, on the looked-up node values otherwise: the
+    // engine's order is taken when it returns the predicted multiset
+    let order_on_edge = match &q.ret {
+        Ret::Plain { items, .. } => q.order.iter().any(|o| matches!(items[o.col], Proj::Prop(Var::E(_), _))),
+        _ => false,
+    };
+    if order_on_edge && !windowed && eval::edge_cols_retyped(q, lang, &s, rows.len()) == Ok(true) && multiset(observed) == multiset(&rows) {
+        return Some(observed.to_vec());
+    }
+    if !q.order.is_empty() {
+        rows.sort_by(cmp_rows);
+    }
+    if windowed {
+        rows = rows.into_iter().skip(sk).take(lim).collect();
+    }
+    Some(rows)
+}
+
+pub enum Outcome11 {
+    Holds,
+    Inexpressible,
+    /// explained by these open rules
+    Known(Vec<Rule>),
+    Fails(String, String),
+    Undecided(String),
+}
+
+fn comp_rendered(comp: &Comp, lang: Lang) -> Option<Rendered> {
+    match &comp.text {
+        Some(t) => Some(Rendered { text: t.clone(), cols: None }),
+        None => render(&comp.q, lang),
+    }
+}
+
+/// Evaluate one relation instance (carrier query `c`) in one language.
+pub fn relation(g: &GraphSpec, rel: Rel, c: &Query, lang: Lang, dev: &Rules) -> (Outcome11, Vec<String>) {
+    let Some(comps) = components(rel, c, lang) else { return (Outcome11::Inexpressible, vec![]) };
+    let b = build(g);
+    let mut outs: Vec<Vec<Row>> = Vec::new();
+    let mut texts = Vec::new();
+    let mut verdicts = Vec::new();
+    for comp in &comps {
+        let Some(r) = comp_rendered(comp, lang) else { return (Outcome11::Inexpressible, vec![]) };
+        texts.push(r.text.clone());
+        let mut d = dev.clone();
+        for x in &comp.rules_off {
+            d = d.without(*x);
+        }
+        let _ = c08::take_last_rows();
+        let (v, _) = c08::verdict_r(&b, &comp.q, lang, &d, r);
+        match c08::take_last_rows() {
+            Some(rows) => outs.push(rows),
+            None => {
+                // the component did not answer
+                return match v {
+                    Verdict::Known(rules) => (Outcome11::Known(rules), texts),
+                    Verdict::Mismatch(k, dsc) => (Outcome11::Fails(k, dsc), texts),
+                    Verdict::Tainted(t) => (Outcome11::Undecided(format!("tainted_by_{}", eval::rule_id(t))), texts),
+                    _ => (Outcome11::Undecided("component gave no rows".into()), texts),
+                };
+            }
+        }
+        verdicts.push(v);
+    }
+    // a component hit by a defect the reference model cannot emulate: not judged here (C08's
+    // directed cells and the directed cells below pin those defects)
+    for v in &verdicts {
+        if let Verdict::Tainted(t) = v {
+            return (Outcome11::Undecided(format!("tainted_by_{}", eval::rule_id(*t))), texts);
+        }
+    }
+    let Some((kind, note)) = check(rel, c, &outs) else { return (Outcome11::Holds, texts) };
+    // the relation fails, but the reference model could not evaluate a component (binding cap):
+    // the failure cannot be attributed to, or told apart from, the open findings
+    if rel != Rel::UnionAll && verdicts.iter().any(|v| matches!(v, Verdict::Undecided(_))) {
+        return (Outcome11::Undecided("attribution_undecided_binding_cap".into()), texts);
+    }
+    // union_all over a front end that ignores the second branch: fixed kind, no model
+    // attribution: are all component answers what the open rules predict, and does the relation
+    // fail on the predictions too?
+    let explained = verdicts.iter().all(|v| matches!(v, Verdict::Agree | Verdict::Known(_)));
+    if explained && rel != Rel::UnionAll {
+        let fails_under = |s: &Rules| -> Option<bool> {
+            let mut pred = Vec::new();
+            for (i, comp) in comps.iter().enumerate() {
+                pred.push(predict(&b, comp, lang, s, &outs[i])?);
+            }
+            Some(check(rel, c, &pred).is_some())
+        };
+        if fails_under(dev) == Some(true) {
+            // rules that explain the component answers ...
+            let mut explaining: Vec<Rule> = Vec::new();
+            for v in &verdicts {
+                if let Verdict::Known(rs) = v {
+                    for r in rs {
+                        if !explaining.contains(r) {
+                            explaining.push(*r);
+                        }
+                    }
+                }
+            }
+            // (a window cut before the order, and a re-typed edge column, act on a component even
+            // when its answer happens to coincide with the specification)
+            for comp in &comps {
+                let w = comp.q.skip.is_some() || comp.q.limit.is_some();
+                if lang == Lang::Gql && w && dev.on(Rule::GqlWindowFirst) && !explaining.contains(&Rule::GqlWindowFirst) {
+                    explaining.push(Rule::GqlWindowFirst);
+                }
+                if eval::edge_cols_retyped(&comp.q, lang, dev, usize::MAX / 2).unwrap_or(true) && !explaining.contains(&Rule::EdgeColTypeLost) {
+                    explaining.push(Rule::EdgeColTypeLost);
+                }
+            }
+            // ... of which only those that can break this relation are responsible (the others
+            // merely shape the data the relation is evaluated on, identically in every component)
+            let relevant: &[Rule] = match rel {
+                Rel::Partition => &[Rule::StackedFilter, Rule::RangeScanStrict, Rule::ZoneMapPrecheck],
+                Rel::Count | Rel::CountStar => &[Rule::ErrCountStar],
+                Rel::Distinct | Rel::DistinctWith => &[Rule::DistinctIgnored],
+                Rel::Window => &[Rule::GqlWindowFirst, Rule::EdgeColTypeLost],
+                Rel::OrderPerm | Rel::WeakWindow => &[Rule::EdgeColTypeLost],
+                Rel::UnionAll => &[],
+            };
+            let resp: Vec<Rule> = explaining.into_iter().filter(|r| relevant.contains(r)).collect();
+            if !resp.is_empty() {
+                return (Outcome11::Known(resp), texts);
+            }
+        }
+    }
+    let sizes: Vec<usize> = outs.iter().map(Vec::len).collect();
+    (Outcome11::Fails(kind.to_string(), format!("{note}; component sizes {sizes:?}")), texts)
+}
+
+fn family(kind: &str) -> String {
+    match kind {
+        "missing_rows" | "extra_rows" | "lost_rows" | "wrong_value" | "wrong_order" | "wrong_rows" => "rows".into(),
+        k => c08::family(k),
+    }
+}
+
+// ------------------------------------------------------------------ generation
+
+fn uid_items(q: &Query, edges_too: bool) -> Vec<Proj> {
+    let mut v: Vec<Proj> = (0..q.nodes.len()).map(|i| Proj::Prop(Var::N(i), "uid".into())).collect();
+    for (i, e) in q.edges.iter().enumerate() {
+        if e.len.is_none() && edges_too {
+            v.push(Proj::Prop(Var::E(i), "uid".into()));
+        }
+    }
+    v
+}
+
+/// base query: small pattern whose rows identify the bindings (uid of every variable)
+fn gen_base(r: &mut Rng, max_hops: usize) -> Query {
+    let cfg = GenCfg { max_hops, p_varlen: 0.06, ..GenCfg::default() };
+    let (mut nodes, edges) = gen_pattern(r, &cfg);
+    // labels mostly on the first node (a label on a later node is a filter operator)
+    for n in nodes.iter_mut().skip(1) {
+        if r.chance(0.7) {
+            n.labels.clear();
+        }
+    }
+    for n in nodes.iter_mut() {
+        n.labels.truncate(1);
+    }
+    let mut q = Query { nodes, edges, pred: None, ret: Ret::Plain { items: vec![], distinct: false }, order: vec![], skip: None, limit: None, order_in_with: true };
+    for e in q.edges.iter_mut() {
+        e.types.truncate(1);
+    }
+    // edge uids only sometimes: an edge column under ORDER BY/SKIP/LIMIT hits finding C11-F16
+    let edges_too = r.chance(0.3);
+    q.ret = Ret::Plain { items: uid_items(&q, edges_too), distinct: false };
+    q.fix_names();
+    q
+}
+
+fn gen_instance(r: &mut Rng, huge: bool) -> (Rel, Query) {
+    let rel = *r.pick(&[
+        Rel::Partition, Rel::Partition, Rel::Partition, Rel::Partition, Rel::Count, Rel::Count, Rel::CountStar, Rel::Distinct, Rel::DistinctWith, Rel::Window, Rel::Window, Rel::Window,
+        Rel::OrderPerm, Rel::WeakWindow, Rel::UnionAll,
+    ]);
+    let mut q = gen_base(r, if huge { 1 } else { 2 });
+    let sizes: [u64; 10] = [0, 1, 2, 3, 5, 7, 10, 20, 2047, 4096];
+    let huge_sizes: [u64; 12] = [0, 1, 2046, 2047, 2048, 2049, 2050, 2100, 2600, 3000, 4096, 5000];
+    let pick_size = |r: &mut Rng| if huge { *r.pick(&huge_sizes) } else { *r.pick(&sizes) };
+    match rel {
+        Rel::Partition => {
+            q.pred = Some(match r.below(10) {
+                0..=2 => gen_atom(r, &q),
+                _ => gen_pred(r, &q, 3),
+            });
+        }
+        Rel::Count | Rel::CountStar => {
+            if r.chance(0.6) {
+                q.pred = Some(gen_pred(r, &q, 2));
+            }
+        }
+        Rel::Distinct | Rel::DistinctWith => {
+            let n = 1 + r.below(2);
+            let items: Vec<Proj> = (0..n)
+                .map(|_| {
+                    let v = Var::N(r.below(q.nodes.len()));
+                    Proj::Prop(v, (*r.pick(&["k", "s", "b", "f", "k"])).to_string())
+                })
+                .collect();
+            q.ret = Ret::Plain { items, distinct: true };
+            if r.chance(0.4) {
+                q.pred = Some(gen_pred(r, &q, 2));
+            }
+        }
+        Rel::Window | Rel::OrderPerm | Rel::WeakWindow => {
+            if r.chance(0.4) {
+                q.pred = Some(gen_pred(r, &q, 2));
+            }
+            if rel != Rel::WeakWindow {
+                // total order: every uid column
+                let n = q.ncols();
+                let desc = r.chance(0.3);
+                q.order = (0..n).map(|col| Order { col, desc }).collect();
+            }
+            if rel != Rel::OrderPerm {
+                if r.chance(0.7) {
+                    q.skip = Some(pick_size(r));
+                }
+                if q.skip.is_none() || r.chance(0.7) {
+                    q.limit = Some(pick_size(r));
+                }
+            }
+            q.order_in_with = r.chance(0.85);
+        }
+        Rel::UnionAll => {
+            q.ret = Ret::Plain { items: vec![Proj::Prop(Var::N(0), "uid".into())], distinct: false };
+        }
+    }
+    q.fix_names();
+    (rel, q)
+}
+
+/// sizes relative to the result size n: n-1, n, n+1 (needs the unwindowed answer first)
+fn retarget_window(q: &mut Query, n: usize, r: &mut Rng) {
+    let around = [n.saturating_sub(1) as u64, n as u64, n as u64 + 1, n as u64 + 50];
+    if q.skip.is_some() && r.chance(0.35) {
+        q.skip = Some(*r.pick(&around));
+    }
+    if q.limit.is_some() && r.chance(0.35) {
+        q.limit = Some(*r.pick(&around));
+    }
+}
+
+// ------------------------------------------------------------------ driver
+
+const LANGS11: [Lang; 4] = [Lang::Gql, Lang::Cypher, Lang::Gremlin, Lang::GraphQL];
+
+fn process(g: &GraphSpec, rel: Rel, c: &Query, dev: &Rules, out: &mut CaseOut, stratum: &str) {
+    let mut any = false;
+    for lang in LANGS11 {
+        let (o, texts) = relation(g, rel, c, lang, dev);
+        match o {
+            Outcome11::Inexpressible => {
+                out.count(&format!("inexpressible.{}.{}", rel.name(), lang.name()));
+            }
+            Outcome11::Undecided(u) => out.count(&format!("undecided.{}", u.split('(').next().unwrap_or("x"))),
+            Outcome11::Holds => {
+                any = true;
+                out.evals += 1;
+                out.count(&format!("holds.{}.{}", rel.name(), lang.name()));
+                out.count(&format!("instances.{stratum}"));
+            }
+            Outcome11::Known(rules) => {
+                any = true;
+                out.evals += 1;
+                out.count(&format!("explained_by_open_findings.{}.{}", rel.name(), lang.name()));
+                for r in rules {
+                    out.known.push((rule_finding(r), format!("{} {}: {}", rel.name(), lang.name(), texts.last().cloned().unwrap_or_default())));
+                }
+            }
+            Outcome11::Fails(kind, _) => {
+                any = true;
+                out.evals += 1;
+                out.count(&format!("fails.{}.{}", rel.name(), lang.name()));
+                let fam = family(&kind);
+                let mut fails = |g2: &GraphSpec, q2: &Query| matches!(relation(g2, rel, q2, lang, dev).0, Outcome11::Fails(k, _) if family(&k) == fam);
+                let (g2, q2, used) = shrink::shrink(g, c, 200, &mut fails);
+                let (o2, texts2) = relation(&g2, rel, &q2, lang, dev);
+                let (kind2, detail) = match o2 {
+                    Outcome11::Fails(k, d) => (k, d),
+                    _ => (kind.clone(), String::new()),
+                };
+                let sig = format!("{}|{}|{}|{}", rel.name(), lang.name(), kind2, skeleton(&q2, lang == Lang::Cypher));
+                out.deviations.push((
+                    sig,
+                    json!({"relation": rel.name(), "language": lang.name(), "kind": kind2, "original_component_queries": texts,
+                           "shrunk_component_queries": texts2, "shrunk_graph": if g2.nodes.len() <= 40 { g2.to_json() } else { json!({"nodes": g2.nodes.len(), "edges": g2.edges.len()}) },
+                           "observed": detail, "shrink_executions": used}),
+                ));
+            }
+        }
+    }
+    if any {
+        let nontrivial = c.pred.is_some() || !c.edges.is_empty() || c.skip.is_some() || c.limit.is_some();
+        if nontrivial {
+            out.nontrivial = Some(hash_str(&format!("{rel:?}{c:?}|{}", g.nodes.len())));
+        }
+        if out.sample.is_none() {
+            out.sample = Some(json!({"relation": rel.name(), "carrier_gql": render(c, Lang::Gql).map(|r| r.text), "graph_nodes": g.nodes.len()}));
+        }
+    }
+}
+
+/// C11 finding that documents the same root cause as a C08 deviation rule
+fn rule_finding(r: Rule) -> String {
+    eval::rule_id(r).replace("C08-", "C11-")
+}
+
+fn case(seed: u64, i: u64, dev: &Rules) -> CaseOut {
+    let mut out = CaseOut::default();
+    let mut gr = Rng::new(seed, "c11.graph", i / 5);
+    let g = graph::random_graph(&mut gr, 40, 1.2);
+    let mut qr = Rng::new(seed, "c11.query", i);
+    let (rel, mut q) = gen_instance(&mut qr, false);
+    if matches!(rel, Rel::Window | Rel::WeakWindow) {
+        // sizes around the actual result size
+        let b = build(&g);
+        let mut base = q.clone();
+        base.skip = None;
+        base.limit = None;
+        base.order.clear();
+        if let Ok(rows) = eval_rows(&b.model, &base, Lang::Cypher, &Rules::none(), BIND_CAP) {
+            retarget_window(&mut q, rows.len(), &mut qr);
+        }
+    }
+    process(&g, rel, &q, dev, &mut out, "small");
+    out
+}
+
+fn huge_case(seed: u64, i: u64, dev: &Rules) -> CaseOut {
+    let mut out = CaseOut::default();
+    let mut gr = Rng::new(seed, "c11.hugegraph", i / 8);
+    let g = graph::huge_graph(&mut gr);
+    let mut qr = Rng::new(seed, "c11.hugequery", i);
+    let (rel, mut q) = gen_instance(&mut qr, true);
+    // keep the pattern small: scan or one hop
+    if q.edges.len() > 1 || q.edges.iter().any(|e| e.len.is_some() || e.dir == Dir::Both) {
+        q = gen_instance(&mut Rng::new(seed, "c11.hugequery2", i), true).1;
+        q.nodes.truncate(1);
+        q.edges.clear();
+        q.pred = None;
+        q.ret = Ret::Plain { items: uid_items(&q, false), distinct: false };
+        q.order.retain(|o| o.col == 0);
+        let rel2 = if q.order.is_empty() { Rel::WeakWindow } else { Rel::Window };
+        if q.skip.is_none() && q.limit.is_none() {
+            q.limit = Some(2048);
+        }
+        q.fix_names();
+        if matches!(rel2, Rel::Window | Rel::WeakWindow) {
+            let n = g.nodes.iter().filter(|n| q.nodes[0].labels.iter().all(|l| n.labels.contains(l))).count();
+            retarget_window(&mut q, n, &mut qr);
+        }
+        process(&g, rel2, &q, dev, &mut out, "huge");
+        return out;
+    }
+    if matches!(rel, Rel::Window | Rel::WeakWindow) {
+        let b = build(&g);
+        let mut base = q.clone();
+        base.skip = None;
+        base.limit = None;
+        base.order.clear();
+        if let Ok(rows) = eval_rows(&b.model, &base, Lang::Cypher, &Rules::none(), BIND_CAP) {
+            retarget_window(&mut q, rows.len(), &mut qr);
+        }
+    }
+    process(&g, rel, &q, dev, &mut out, "huge");
+    out
+}
+
+pub fn run(tier: Tier, seed: u64) -> ! {
+    let mut rep = Report::new("C11", tier, seed, "exploration");
+    rep.rule = "relation instance = (graph, carrier query, relation, language); counted once per language in which every component query answered; non-trivial = carrier with a predicate, an edge pattern or a window; distinct by hash of (relation, carrier AST, graph size)".into();
+    rep.assumptions = vec![
+        "the relations are checked between the engine's own answers; the C08 reference model is used only to attribute a failing relation to open findings (every component answer must be exactly what the findings' rules predict, and the relation must fail on the predicted answers as well)".into(),
+        "partition: exact three-way split in Cypher; GQL has no IS NULL (finding C08-F17) and GraphQL/Gremlin have no NOT: there rows(p) + rows(NOT p) must be contained in rows(Q) (Gremlin: exact split with hasNot(k) for homogeneous numeric keys); NOT p for Gremlin/GraphQL atoms is the complementary comparison".into(),
+        "count: count(last variable) stands for count(*) (variables are never null in the core); the literal count(*) is the separate relation count_star".into(),
+        "window: ORDER BY lists the uid of every variable (total order); Cypher writes ORDER BY/SKIP/LIMIT in a WITH before RETURN (RETURN ... ORDER BY fails: C08-F21); without ORDER BY only the size and membership of the window are checked".into(),
+        "UNION ALL: only GQL accepts the text (Cypher: syntax error 'Expected end of query', Gremlin: unknown step union — listed, not generated)".into(),
+        "predicates come from the full C08 generator (comparisons, + - *, AND/OR/NOT, IN, IS NULL, string operators, missing and mixed-kind properties); arithmetic uses constants 0..3 on small values only: no overflow, no division (C12's business)".into(),
+        "skip/limit values: 0, 1, 2, 3, 5, 7, 10, 20, n-1, n, n+1, n+50, 2046..2050, 2100, 2600, 3000, 4096, 5000; graphs of 2650-3050 nodes give scans and one-hop results that cross the 2048-row chunk size".into(),
+    ];
+    // a rule is on when its C08 finding or the C11 finding of the same root cause is open
+    let dev = Rules::from_open(|id| rep.findings.rule_open(id) || rep.findings.rule_open(&id.replace("C08-", "C11-")));
+    rep.extra.insert(
+        "deviation_rules_on".into(),
+        json!(eval::RULE_IDS.iter().filter(|x| dev.on(x.0)).map(|x| format!("{} ({:?})", x.1, x.0)).collect::<Vec<_>>()),
+    );
+    let n: u64 = std::env::var("C11_CASES").ok().and_then(|s| s.parse().ok()).unwrap_or(tier.pick(1400, 90_000));
+    let nhuge: u64 = std::env::var("C11_HUGE").ok().and_then(|s| s.parse().ok()).unwrap_or(tier.pick(64, 1500));
+    let th = threads();
+    let merge11 = |rep: &mut Report, mut out: CaseOut| {
+        // a root cause known to C08 but not recorded as a C11 finding is a violation here
+        let known = std::mem::take(&mut out.known);
+        for (id, ex) in known {
+            if rep.findings.rule_open(&id) {
+                out.known.push((id, ex));
+            } else {
+                out.deviations.push((format!("unrecorded_root_cause|{id}"), json!({"example": ex, "note": "the relation fails exactly as the C08 deviation rule of that number predicts, but no open C11 finding records it"})));
+            }
+        }
+        merge(rep, out);
+    };
+    // directed cells: defects the reference model does not emulate, under fixed signatures
+    {
+        let no9 = dev.without(Rule::FactorizedEmptyLevel);
+        let mut two = c08::base_query(2);
+        two.ret = Ret::Plain { items: uid_items(&two, false), distinct: false };
+        let mut cells: Vec<(GraphSpec, Rel, Query, Rules)> = vec![(c08::chain_graph(2), Rel::Count, two.clone(), no9.clone()), (c08::chain_graph(1), Rel::Count, two.clone(), no9.clone())];
+        let mut part = c08::base_query(1);
+        part.ret = Ret::Plain { items: uid_items(&part, false), distinct: false };
+        part.pred = Some(Pred::Cmp(CmpOp::Gt, Term::Prop(Var::E(0), "uid".into()), Term::Const(Value::Int64(500))));
+        part.fix_names();
+        cells.push((c08::chain_graph(3), Rel::Partition, part, dev.clone()));
+        let mut two_p = two.clone();
+        two_p.pred = Some(Pred::Cmp(CmpOp::Gt, Term::Prop(Var::N(0), "uid".into()), Term::Const(Value::Int64(0))));
+        cells.push((c08::chain_graph(2), Rel::Partition, two_p, no9.clone()));
+        for (g, rel, q, rules) in cells {
+            let mut out = CaseOut::default();
+            process(&g, rel, &q, &rules, &mut out, "directed");
+            merge11(&mut rep, out);
+        }
+    }
+    for out in run_parallel(n, th, |i| case(seed, i, &dev)) {
+        merge11(&mut rep, out);
+    }
+    for out in run_parallel(nhuge, th, |i| huge_case(seed, i, &dev)) {
+        merge11(&mut rep, out);
+    }
+    rep.finish()
 }
